@@ -189,6 +189,8 @@ class Scratch:
             inserted = 0
             edits = {}  # file -> list of (line_index, text)
             tails = {}
+            root_rs = self.src / crate_dir(crate) / "src" / "lib.rs"
+            forbids_unsafe = root_rs.exists() and "forbid(unsafe_code)" in root_rs.read_text()
             for m in mods:
                 if m.crate != crate:
                     continue
@@ -203,7 +205,7 @@ class Scratch:
                     pass
                 dst.write_text(m.path.read_text().replace("@VERIF@", str(self.vp_root())) + PLAYBACK_PRELUDE)
                 tails.setdefault(m.file, []).append(
-                    f'#[cfg({"all(kani, " + m.modcfg + ")" if m.modcfg else "kani"})] #[allow(unsafe_code, dead_code, unused_imports, unused, missing_docs, clippy::all)] #[path = "{dst}"] pub(crate) mod {m.name};')
+                    f'#[cfg({"all(kani, " + m.modcfg + ")" if m.modcfg else "kani"})] #[allow({"" if forbids_unsafe else "unsafe_code, "}dead_code, unused_imports, unused, missing_docs, clippy::all)] #[path = "{dst}"] pub(crate) mod {m.name};')
                 for a in m.attrs:
                     ap = self.src / a["file"]
                     if not ap.exists():
